@@ -1,5 +1,6 @@
 """C04 — selecting, replicating, joining, generating views equal their reference result."""
 import hashlib, itertools, os, re, struct
+from harness import gen_c04
 from collections import Counter
 
 ID = "C04"
@@ -9,9 +10,9 @@ HANDLERS = ["h_c04.ml"]
 PROVED = ["C04_tile_shape", "C04_tile_element", "C04_repeat_flat", "C04_repeat_axis", "C04_roll_axis", "C04_roll_flat",
           "C04_pad", "C04_take_axis", "C04_take_flat", "C04_compress_axis", "C04_resize", "C04_concatenate_axis",
           "C04_concatenate_flat", "C04_tril_triu", "C04_tril_triu_1d", "C04_tri_eye", "C04_diagflat",
-          "C04_sliding_window_axis", "C04_expand_axis", "C04_arange_count", "C04_linspace_element", "C04_join_elements_on_domain"]
+          "C04_sliding_window_axis", "C04_expand_axis", "C04_arange_count", "C04_linspace_element", "C04_join_elements_on_domain", "C04_arange_count_unsigned_on_domain"]
 PARTIAL = ["C04_diagonal_matrix_partial"]
-REFUTED = ["C04_roll_repeated_axis_refuted", "C04_int_float32_common_type_refuted"]
+REFUTED = ["C04_roll_repeated_axis_refuted", "C04_int_float32_common_type_refuted", "C04_arange_unsigned_decreasing_refuted"]
 CORRESPONDENCE_ONLY = ["roll with a tuple of axes", "repeat with per-element counts", "compress with axis=None", "expand with several axes", "stack", "hstack",
                        "vstack", "dstack", "column_stack", "split", "sliding_window with several axes or axis=None",
                        "diagonal of arrays of dim > 2 or axes other than (0,1)", "where", "arange / linspace element values in floating point",
@@ -32,7 +33,8 @@ CLAIM = dict(
           "NumPy's result type or the value is float32-representable (C04_join_elements_on_domain, types int8/int32/int64/float/double); "
           "REFUTED with Coq witnesses and listed as known findings: roll with an "
           "axis listed twice (last shift wins, NumPy adds); int32/int64 joined with float32 has element type float (NumPy float64: integers "
-          "above 2^24 are rounded). "
+          "above 2^24 are rounded); arange with unsigned start / stop over a decreasing range is empty (the difference wraps before the "
+          "conversion to float; found by the argument-form table, fix diff in /verif/fixes). "
           "CORRESPONDENCE-ONLY (modelled + specified + compared with the C++ on the grid, no element theorem): " + ", ".join(CORRESPONDENCE_ONLY) +
           ". Tied to the C++ by running view::X and array::X on run-time shaped operands (arguments as std::vector / std::array / run-time "
           "tuple / compile-time constants) and index::shape_X / index::X on vector / array / static_vector containers, two flavours "
@@ -47,7 +49,12 @@ RULE = ("per routine: small-scope box (source dim 1..3, extents 1..3; thorough d
         "(index::shape_X / index::X on vector / array / static_vector containers). Element types: every joining view on all ordered pairs of "
         "int8/int32/int64/float/double operands (fractional and extreme values, printed with %.17g and compared exactly), take / compress "
         "with int8/int32/int64/size_t/uint8/bool index and condition containers, conditions with non-0/1 truthy entries at view and index "
-        "level, fill values of another type, generators with every dtype. non-trivial = source of dim >= 2 with an "
+        "level, fill values of another type, generators with every dtype. Argument FORMS (generated TU, harness/gen_c04.py, ~220 table "
+        "entries): every scalar argument of the generators (tri, eye, identity, arange, linspace, full/zeros/ones, diagflat, tril/triu) "
+        "and of roll, repeat, tile, take, pad, concatenate, split, expand, sliding_window, resize as run-time int, run-time size_t, "
+        "meta::ct_v<k>, k_ct, None or omitted, list arguments as vector / array / run-time tuple / tuple of constants, crossed so that both-"
+        "constant, constant+run-time, run-time+constant and constant+None arms are instantiated with N != M and k != 0; the Model ignores "
+        "the form, shape and every element are compared. non-trivial = source of dim >= 2 with an "
         "extent > 1; distinct = distinct case lines")
 THEOREM_STATUS = {"proved": PROVED, "partial": PARTIAL, "refuted": REFUTED}
 ASSUMPTIONS = ["extents are positive; repeats/reps >= 1; arithmetic in Z (extents far below 2^31 in every generated case)"]
@@ -63,7 +70,10 @@ def drivers(tier):
     dep = "-DVD_DEP_SHA=\"%s%s%s\"" % (_sha("c04_common.hpp"), _sha("show.hpp"), _sha("c04_typed.hpp"))
     return {"c04a": [("c04_a.cpp", "ndebug", (dep,)), ("c04_a.cpp", "asan", ("-DVD_LIGHT", dep))],
             "c04b": [("c04_b.cpp", "ndebug", (dep,)), ("c04_b.cpp", "asan", ("-DVD_LIGHT", dep))],
-            "c04c": [("c04_c.cpp", "ndebug", (dep,)), ("c04_c.cpp", "asan", ("-DVD_LIGHT", dep))]}
+            # the generated argument-form TU shares the key (and hence the build slot) of the typed TU: each of the two
+            # binaries answers "unsupported" to the other's case lines; constants are compile-time dispatch, so no asan build
+            "c04c": [("c04_c.cpp", "ndebug", (dep,)), ("c04_c.cpp", "asan", ("-DVD_LIGHT", dep)),
+                     (gen_c04.write_driver(), "ndebug", (dep,))]}
 
 
 # ---------------------------------------------------------------- helpers
@@ -546,6 +556,8 @@ def gen_cases(rng, tier):
                 add("dtype_generators", "tarange S:%s I:%d I:%d I:%d I:%d" % (dt, a_, b_, p, qq), "c04c")
             for (a_, b_, n_, e) in [(2, 10, 5, 1), (-2, 9, 4, 0), (3, 9, 1, 1), (3, 9, 1, 0), (7, -9, 3, 1), (1, 1, 2, 1)]:
                 add("dtype_generators", "tlinspace S:%s I:%d I:%d I:%d I:%d" % (dt, a_, b_, n_, e), "c04c")
+    # ================= argument forms (generated TU, harness/gen_c04.py): the Model ignores the form
+    for line, _eid in gen_c04.lines(rng): add("argument_forms", line, "c04c")
     return out
 
 
@@ -589,6 +601,9 @@ def classify(line, impl, spec, model):
                 dt = x.split(":")[1]
                 if dt in ("i32", "i64") and any(not f32_exact(int(v)) for v in x.split(":")[3].split(",") if v):
                     return "int_float32_common_type"
+    if op == "arange_f":
+        f = t[1][2:].split(".")
+        if f[1].startswith("u") and f[2].startswith("u") and int(t[3][2:]) < int(t[2][2:]) and int(t[4][2:]) < 0: return "arange_unsigned_decreasing"
     if op in ("roll_m", "roll_ms"):
         d = _src_dim(t); axes = [a + d if a < 0 else a for a in _ints(t[-1])]
         if len(set(axes)) < len(axes): return "roll_repeated_axis"
